@@ -35,7 +35,7 @@ def run(ctx):
     from c01 import ctx_alias
     c06.check_edge_selection(ctx_alias(ctx, "R02.8"), [f for f in db.fns.values() if f.crate == "wac_graph"])
     import engine
-    c06.run(engine.AliasCtx(ctx, {"R06.1": "R02.8"}))
+    c06.run(engine.AliasCtx(ctx, {"R06.1": "R02.8", "R06.2": "R02.8"}))
 
 
 def argument_triple(ctx):
